@@ -78,6 +78,9 @@ func TestC09Rapid(t *testing.T) {
 		l := &harness.Live{Property: "C09", Check: "C09/strings", Doc: doc, Ctx: ctx, AST: e, Expr: xast.Render(e), Flavour: flavourOf(rt)}
 		want, f := scalarOracle(l)
 		if f != nil {
+			if inconclusive(uC09, f) {
+				return
+			}
 			harness.Report(rt, uC09, l, f)
 		}
 		nt, labels := c09Nontrivial(l, want)
